@@ -1,46 +1,100 @@
 ----------------------------- MODULE PrngStream -----------------------------
 (* Abstract state of a pseudo-random generator for the purpose of its binary  *)
-(* form: a generator is at position n of output stream s (the stream a fresh   *)
-(* generator seeded with seed number s produces).  MarshalBinary captures      *)
-(* <<s, n>>; UnmarshalBinary of those bytes into ANY generator of the type     *)
-(* (fresh, used, on another stream) puts it at <<s, n>>: it continues the same *)
-(* output stream.  Truncated state must be refused.                            *)
+(* form.  The abstract state of a generator is its FUTURE OUTPUT STREAM: a     *)
+(* generator is at position n of output stream s.  Stream s >= 1 is the stream *)
+(* a generator produces after Seed(seed number s); stream Default = 0 is the   *)
+(* stream of a value that came from the constructor and was never seeded.      *)
 (*                                                                             *)
-(* R1: TLC explores the machine for small bounds (TypeOK, restored generators  *)
-(* replay exactly the saved suffix).  R3: PrngStreamTrace validates logs of    *)
-(* the real generators, in which every output is identified by its place in    *)
-(* the reference streams.                                                      *)
+(*   Make(g, "ctor")  a new value from the constructor: place <<Default, 0>>   *)
+(*   Make(g, "zero")  a new zero value: a legal RECEIVER of Seed and of        *)
+(*                    UnmarshalBinary, its own stream is not modelled          *)
+(*   Seed(g, s)       place <<s, 0>> whatever the generator was before         *)
+(*   Out / Adv        the generator yields the outputs at its place            *)
+(*   Save(g, k, b)    MarshalBinary: slot k holds the place of g; b is an      *)
+(*                    opaque token for the BYTES that were written             *)
+(*   Restore(g, k)    UnmarshalBinary of the bytes of slot k into ANY          *)
+(*                    generator of the type (fresh from the constructor, a     *)
+(*                    zero value, used on another stream, or the saver         *)
+(*                    itself) puts it at the saved place: it continues the     *)
+(*                    same output stream                                       *)
+(*   Refuse(g)        truncated state must be refused; the generator is then   *)
+(*                    in a state the model does not track                      *)
+(*                                                                             *)
+(* Bytes: the model does not know the encoding, only two laws about it.        *)
+(*   re-encoding   a generator that was restored from bytes b (or has just     *)
+(*                 written b) and has not been seeded / stepped since writes   *)
+(*                 exactly b again:  encode(decode(b)) = b;                    *)
+(*   injectivity   the same bytes never stand for two different places.        *)
+(* img[g] is the token the generator is known to encode to (0 = not known),    *)
+(* tok[b] the place token b stands for.                                        *)
+(*                                                                             *)
+(* R1: TLC explores the machine for small bounds.  R2: PrngHist enumerates     *)
+(* histories of this machine and prints them with the expected observations.   *)
+(* R3: PrngStreamTrace validates logs of the real generators, in which every   *)
+(* output is identified by its place in the reference streams.                 *)
 EXTENDS Integers, Sequences, FiniteSets, TLC
 
-CONSTANTS Gens, Ids, Streams, MaxN
+CONSTANTS Gens, Ids, Streams, MaxN, MaxTok
 
-VARIABLES pos, snap
-svars == <<pos, snap>>
+VARIABLES pos, snap, img, tok
+svars == <<pos, snap, img, tok>>
 
-Unknown == [s |-> 0 - 1, n |-> 0 - 1]
-Place == [s : Streams, n : 0 .. MaxN] \cup {Unknown}
+Default == 0
+Unknown == [s |-> 0 - 1, n |-> 0 - 1]      \* exists, but the model does not know its stream
+Absent == [s |-> 0 - 2, n |-> 0 - 2]       \* no such generator yet
+Known(p) == p.s >= 0
+Place == [s : Streams \cup {Default}, n : 0 .. MaxN] \cup {Unknown, Absent}
+NoSnap == [p |-> Unknown, b |-> 0]
 
-New(g, s) == /\ pos' = [pos EXCEPT ![g] = [s |-> s, n |-> 0]] /\ UNCHANGED snap
-\* the generator yields the output at its place and advances
-Out(g, p) == /\ pos[g] # Unknown /\ p = pos[g]
-             /\ pos' = [pos EXCEPT ![g] = [s |-> p.s, n |-> p.n + 1]] /\ UNCHANGED snap
-Save(g, k) == /\ pos[g] # Unknown /\ snap' = [snap EXCEPT ![k] = pos[g]] /\ UNCHANGED pos
-Restore(g, k) == /\ snap[k] # Unknown /\ pos' = [pos EXCEPT ![g] = snap[k]] /\ UNCHANGED snap
-\* a refused (truncated) state leaves the generator in a state the model does not track
-Refuse(g) == /\ pos' = [pos EXCEPT ![g] = Unknown] /\ UNCHANGED snap
+Make(g, f) == /\ pos' = [pos EXCEPT ![g] = IF f = "ctor" THEN [s |-> Default, n |-> 0] ELSE Unknown]
+              /\ img' = [img EXCEPT ![g] = 0] /\ UNCHANGED <<snap, tok>>
+Seed(g, s) == /\ pos[g] # Absent
+              /\ pos' = [pos EXCEPT ![g] = [s |-> s, n |-> 0]]
+              /\ img' = [img EXCEPT ![g] = 0] /\ UNCHANGED <<snap, tok>>
+\* j outputs: the outputs at places n .. n + j - 1 of the stream, in this order
+Adv(g, j) == /\ Known(pos[g]) /\ j >= 1
+             /\ pos' = [pos EXCEPT ![g] = [s |-> pos[g].s, n |-> pos[g].n + j]]
+             /\ img' = [img EXCEPT ![g] = 0] /\ UNCHANGED <<snap, tok>>
+Out(g, p) == p = pos[g] /\ Adv(g, 1)
+\* which byte tokens MarshalBinary may produce
+Fresh == Len(tok) + 1
+LegalTok(g, b) == IF img[g] # 0 THEN b = img[g]
+                  ELSE b = Fresh \/ (b \in 1 .. Len(tok) /\ tok[b] = pos[g])
+Save(g, k, b) == /\ Known(pos[g]) /\ LegalTok(g, b)
+                 /\ snap' = [snap EXCEPT ![k] = [p |-> pos[g], b |-> b]]
+                 /\ img' = [img EXCEPT ![g] = b]
+                 /\ tok' = IF b = Fresh THEN Append(tok, pos[g]) ELSE tok
+                 /\ UNCHANGED pos
+Restore(g, k) == /\ pos[g] # Absent /\ snap[k].b # 0
+                 /\ pos' = [pos EXCEPT ![g] = snap[k].p]
+                 /\ img' = [img EXCEPT ![g] = snap[k].b] /\ UNCHANGED <<snap, tok>>
+Refuse(g) == /\ pos[g] # Absent
+             /\ pos' = [pos EXCEPT ![g] = Unknown]
+             /\ img' = [img EXCEPT ![g] = 0] /\ UNCHANGED <<snap, tok>>
 
-Init == pos = [g \in Gens |-> Unknown] /\ snap = [k \in Ids |-> Unknown]
+Init == /\ pos = [g \in Gens |-> Absent] /\ snap = [k \in Ids |-> NoSnap]
+        /\ img = [g \in Gens |-> 0] /\ tok = <<>>
 Next == \E g \in Gens :
-          \/ \E s \in Streams : New(g, s)
-          \/ (pos[g] # Unknown /\ pos[g].n < MaxN /\ Out(g, pos[g]))
-          \/ \E k \in Ids : Save(g, k) \/ Restore(g, k)
+          \/ \E f \in {"ctor", "zero"} : Make(g, f)
+          \/ \E s \in Streams : Seed(g, s)
+          \/ (Known(pos[g]) /\ pos[g].n < MaxN /\ Out(g, pos[g]))
+          \/ \E k \in Ids : \/ Restore(g, k)
+                            \/ \E b \in 1 .. MaxTok : Save(g, k, b)
           \/ Refuse(g)
 Spec == Init /\ [][Next]_svars
 
-TypeOK == (\A g \in Gens : pos[g] \in Place) /\ (\A k \in Ids : snap[k] \in Place)
-\* a snapshot is a place some generator has been at: never ahead of every stream's exploration bound
-SnapReached == \A k \in Ids : snap[k] # Unknown => snap[k].n <= MaxN
+TypeOK == /\ \A g \in Gens : pos[g] \in Place /\ img[g] \in 0 .. Len(tok)
+          /\ \A k \in Ids : snap[k].p \in Place /\ snap[k].b \in 0 .. Len(tok)
+          /\ \A b \in 1 .. Len(tok) : Known(tok[b])
+\* a snapshot is a place some generator has been at, and its bytes stand for that place
+SnapSound == \A k \in Ids : snap[k].b # 0 => Known(snap[k].p) /\ snap[k].p.n <= MaxN /\ tok[snap[k].b] = snap[k].p
+\* a generator that is known to encode to b is at the place b stands for: so decoding b and encoding again gives b,
+\* and every generator restored from the same bytes continues the same stream
+ImgSound == \A g \in Gens : img[g] # 0 => Known(pos[g]) /\ tok[img[g]] = pos[g]
+SameBytesSameStream == \A g, h \in Gens : (img[g] # 0 /\ img[g] = img[h]) => pos[g] = pos[h]
 \* restoring makes the generator indistinguishable from the saver at the time of saving
-RestoreExact == [][\A g \in Gens, k \in Ids : (snap[k] # Unknown /\ pos'[g] = snap[k] /\ pos[g] # pos'[g] /\ snap' = snap)
-                      => pos'[g].s = snap[k].s /\ pos'[g].n = snap[k].n]_svars
+RestoreExact == [][\A g \in Gens, k \in Ids : (snap[k].b # 0 /\ pos'[g] = snap[k].p /\ pos[g] # pos'[g] /\ snap' = snap)
+                      => pos'[g].s = snap[k].p.s /\ pos'[g].n = snap[k].p.n]_svars
+\* MarshalBinary does not disturb the generator
+SaveIsReadOnly == [][\A g \in Gens : (tok' # tok \/ snap' # snap) => pos'[g] = pos[g]]_svars
 =============================================================================
